@@ -9,6 +9,7 @@ mod builder;
 mod checks;
 mod classes;
 mod consumer;
+mod corpus;
 mod gen_fd;
 mod driver;
 mod engine;
